@@ -35,7 +35,7 @@ def check(run, repo, world):
 
     # ---- QueryDeviceTypes -------------------------------------------------
     m, fn, _ = world.func(MOD + ".QueryDeviceTypes")
-    fn = normalise(fn, world, MOD)
+    fn = normalise(fn, world, MOD, lift_values=True)
     Q = MOD + ".QueryDeviceTypes"
     cfg = gen_cfg(fn, Q)
     ys = yields_of(cfg, world, MOD)
@@ -762,6 +762,24 @@ def _check_setgroups(run, world, mod, S, cfg, ys, fn):
                        lambda a: a[1].startswith("isinstance(%s, " % addr))
         want = blind if full else rmw
         ok = pred.equivalent(got, want)[0]
+        if ok and loop is not None and not full and not y.is_from:
+            # nothing but the mode decides whether the differences are
+            # written (a test of the difference itself being non-empty
+            # changes nothing and is set aside)
+            lnode = [n for n in cfg.reachable if n.kind == "for" and
+                     n.ast is loop]
+            if lnode:
+                allc = _project(_path_conds(cfg, lnode[0], world),
+                                lambda a: a[1] != it)
+                okall, _w = pred.equivalent(allc, want)
+                run.ob("R-SETGRP", "%s#only-mode-guards:%s" % (S, y.name),
+                       okall,
+                       "the loop over `%s` is reached when %s: besides the "
+                       "addressing mode nothing may decide whether the "
+                       "membership changes are written (an early exit "
+                       "leaves groups set that were not requested)" % (
+                           it, pred.show(allc) or "never"),
+                       where(mod, lnode[0]))
         run.ob("R-SETGRP", "%s#mode-test:%s[%s]" % (
             S, y.name if not y.is_from else "QueryGroups",
             "full" if full else "diff"), ok,
